@@ -1,0 +1,36 @@
+//go:build verif
+
+package influxql
+
+// C11: regex-to-literal rewriting.
+//
+// regexp/syntax.Regexp is read field by field. What the library guarantees
+// about a parsed and simplified tree is a trusted type invariant:
+//@ typeinv syntax.Regexp : (self.Op == 13 ==> len(self.Sub) == 1) && ((self.Op == 18 || self.Op == 19) ==> len(self.Sub) >= 1) && (self.Op == 4 ==> len(self.Rune) % 2 == 0) && forall(k, 0, len(self.Sub), self.Sub[k] != nil)
+
+//@ func matchRegex
+//@   props C11 C13
+//@   safety C13
+//@   modifies fresh
+//@   frameprops C14 C17
+//@   requires re != nil
+//@   unproved makeslice@make([]string, 0, sz) : needs the bound on the number of literals (a sum over the character-class ranges, and a product for concatenations) carried through the recursion: not expressible without a recursive specification function over the library's tree
+//@   unproved idx@re.Rune[i : the library invariant 'character-class runes come in lo,hi pairs' is assumed as a type invariant, but the step-by-two loop needs an evenness invariant that was not written
+//@   unproved makeslice@make([]string, sz) : needs the bound on the number of literals (a sum over the character-class ranges, and a product for concatenations) carried through the recursion: not expressible without a recursive specification function over the library's tree
+//@   unproved idx@concat[ : needs the bound on the number of literals (a sum over the character-class ranges, and a product for concatenations) carried through the recursion: not expressible without a recursive specification function over the library's tree
+//@   ensures result1 ==> (result0 == nil || fresh(result0))
+//@   loop 1 invariant names == nil || fresh(names)
+//@   ensures [C11] @foldcase re.Flags&1 != 0 ==> !result1
+//@   ensures [C11] @altbounded (result1 && re.Op == 19) ==> len(result0) <= 100
+//@   ensures [C11] @literal (result1 && re.Op == 3) ==> len(result0) == 1
+//@   ensures [C11] @kinds result1 ==> (re.Op == 3 || re.Op == 13 || re.Op == 18 || re.Op == 4 || re.Op == 19)
+
+// matchExactRegex: only a concatenation that starts with the beginning-of-text
+// anchor and ends with the end-of-text anchor is handed to matchRegex.
+//@ func matchExactRegex
+//@   props C11 C13
+//@   safety C13
+//@   modifies fresh, syntax.Regexp.Sub
+//@   frameprops C14 C17
+//@   ensures [C11] @textanchors result1 ==> (local(start).Op == 9 && local(end).Op == 10)
+//@   ensures [C11] @concat result1 ==> local(re).Op == 18
